@@ -345,11 +345,18 @@ def Cmd.variant : Cmd → Str
 table of dispatcher arms. -/
 def passesIdentity (c : Cmd) : Bool := identityArms.contains c.variant
 
-/-- Has `dispatch_command` an arm for it at all (else `unreachable!()`)? -/
-def dispatched (c : Cmd) : Bool := identityArms.contains c.variant || anonymousArms.contains c.variant
+/-- Does the dispatcher's arm answer an error by itself, without calling any handler (BATCH:
+"BATCH is not supported by this endpoint")? -/
+def refused (c : Cmd) : Bool := refusedArms.contains c.variant
+
+/-- Has `dispatch_command` an arm for it at all? (A variant without one can only exist behind a
+panicking fallback arm — `fallbackPanics`; the present dispatcher has an arm for every variant.) -/
+def dispatched (c : Cmd) : Bool :=
+  identityArms.contains c.variant || anonymousArms.contains c.variant || refusedArms.contains c.variant
 
 inductive Verdict
-  | crash          -- dispatcher panics (`unreachable!`)
+  | crash          -- no arm: a fallback arm would panic (`unreachable!`)
+  | refused        -- the arm answers 400 itself; no handler runs
   | unauthorized   -- 401
   | forbidden      -- 403
   | internal       -- 500 before the handler ("Authentication not configured")
@@ -367,7 +374,7 @@ def checkId (uid : Option Str) (right : Str → Bool) : Verdict :=
 `mgr` = an `AuthManager` is passed to the dispatcher. -/
 def authorize (st : State) (mgr : Bool) (uid : Option Str) (c : Cmd) : Verdict :=
   if !dispatched c then .crash
-  else if !passesIdentity c then .proceed
+  else if !passesIdentity c then (if refused c then .refused else .proceed)
   else
     match c with
     | .store et _ => if mgr then checkId uid (fun u => canWrite st u et) else .proceed
@@ -486,7 +493,7 @@ def exec (alnum : Char → Bool) (st : State) (c : Cmd) : Status × State :=
   | .show name => if st.remembered.contains name then (.s200, st) else (.s500, st)
   | .flush => (.s200, st)
   | .ping => (.s200, st)
-  | .batch => (.panic, st)
+  | .batch => (.s400, st)   -- not reachable: the dispatcher refuses BATCH before any handler
   | .define et =>
     if st.schemas.contains et then (.s500, st) else (.s200, { st with schemas := et :: st.schemas })
   | .createUser id key roles =>
@@ -517,6 +524,7 @@ def dispatch (alnum : Char → Bool) (st : State) (mgr : Bool) (uid : Option Str
       | .unauthorized => (.s401, st)
       | .forbidden => (.s403, st)
       | .internal => (.s500, st)
+      | .refused => (.s400, st)
       | .crash => (.panic, st)
   | _ =>
     match authorize st mgr uid c with
@@ -524,6 +532,7 @@ def dispatch (alnum : Char → Bool) (st : State) (mgr : Bool) (uid : Option Str
     | .unauthorized => (.s401, st)
     | .forbidden => (.s403, st)
     | .internal => (.s500, st)
+    | .refused => (.s400, st)
     | .crash => (.panic, st)
 
 /-! ## Specification side: the rights a command needs, and who holds them -/
